@@ -457,7 +457,7 @@ func main() {
 		Rule:  "each case is one Parse/Generate call or one evaluation of a list pipeline on the real code under the controlled scheduler; all interleavings are explored, and at every terminal state (no transition enabled) every vthread must have terminated; evaluations = cases, distinct_nontrivial = parses that stop with an error plus pipelines that start library goroutines",
 		Assumptions: []string{"quiescence under the scheduler replaces the wall-clock grace period: a vthread parked when no transition is enabled can never be woken (its channels are referenced by no runnable goroutine)",
 			"background CPU work is measured as scheduler transitions executed after the call returned, compared between source lengths n and 2n"},
-		QuickBudget: 60e9, ThoroughBudget: 25 * 60e9,
+		QuickBudget: 90e9, ThoroughBudget: 25 * 60e9,
 		Run: func(ctx *bex.Ctx) {
 			log.SetOutput(io.Discard)
 			runParser(ctx)
